@@ -161,78 +161,15 @@ theorem toNat_of_eq {t : Int} {n : Nat} (h : (n : Int) = t) : t.toNat = n := by 
 theorem head_toNat (d : Bytes) (h : 0 < d.length) : d[0]?.map (·.toNat) = some d[0].toNat := by
   rw [List.getElem?_eq_getElem h]; rfl
 
-theorem lc_tail (ct : Int) (b' : Option Baudrate) (r : Request) (hr : (match b' with
-      | none => (pure (mkReq "LinkControl" (some ct.toNat) none) : Py Request)
-      | some b => do
-        let bs ← b.getBytes
-        pure (mkReq "LinkControl" (some ct.toNat) (some bs))) = .ok r) : ∃ data, r = mkReq "LinkControl" (some ct.toNat) data := by
-  cases b' with
-  | none => simp only [pure_ok] at hr; exact ⟨_, hr.symm⟩
-  | some x => simp only [bind_ok, pure_ok] at hr; obtain ⟨_, _, hr⟩ := hr; exact ⟨_, hr.symm⟩
-
-theorem lc_mid (ct : Int) (baud : Option Baudrate) (r : Request) (h : (match baud with
-    | none => (do
-      let baud' ← (pure none : Py (Option Baudrate))
-      match baud' with
-        | none => pure (mkReq "LinkControl" (some ct.toNat) none)
-        | some b => do
-          let bs ← b.getBytes
-          pure (mkReq "LinkControl" (some ct.toNat) (some bs)) : Py Request)
-    | some b =>
-      if (ct == 2) = true then do
-        let x ← b.makeNewType BaudType.specific
-        let baud' ← pure (some x)
-        match baud' with
-          | none => pure (mkReq "LinkControl" (some ct.toNat) none)
-          | some b => do
-            let bs ← b.getBytes
-            pure (mkReq "LinkControl" (some ct.toNat) (some bs))
-      else
-        if (ct == 1 && b.baudtype == BaudType.specific) = true then do
-          let x ← b.makeNewType BaudType.fixed
-          let baud' ← pure (some x)
-          match baud' with
-            | none => pure (mkReq "LinkControl" (some ct.toNat) none)
-            | some b => do
-              let bs ← b.getBytes
-              pure (mkReq "LinkControl" (some ct.toNat) (some bs))
-        else do
-          let baud' ← pure (some b)
-          match baud' with
-            | none => pure (mkReq "LinkControl" (some ct.toNat) none)
-            | some b => do
-              let bs ← b.getBytes
-              pure (mkReq "LinkControl" (some ct.toNat) (some bs))) = .ok r) : ∃ data, r = mkReq "LinkControl" (some ct.toNat) data := by
-  cases baud with
-  | none =>
-    simp only [bind_ok, pure_ok] at h
-    obtain ⟨_, rfl, h⟩ := h
-    exact lc_tail ct none r h
-  | some b =>
-    simp only at h
-    split at h
-    · simp only [bind_ok, pure_ok] at h
-      obtain ⟨_, _, _, rfl, h⟩ := h
-      exact lc_tail ct (some _) r h
-    · split at h
-      · simp only [bind_ok, pure_ok] at h
-        obtain ⟨_, _, _, rfl, h⟩ := h
-        exact lc_tail ct (some _) r h
-      · simp only [bind_ok, pure_ok] at h
-        obtain ⟨_, rfl, h⟩ := h
-        exact lc_tail ct (some _) r h
-
 theorem linkControl_shape (ct : Int) (baud : Option Baudrate) (r : Request) (h : linkControlMakeRequest ct baud = .ok r) :
     (0 ≤ ct ∧ ct ≤ 0x7F) ∧ ∃ data, r = mkReq "LinkControl" (some ct.toNat) data := by
   unfold linkControlMakeRequest at h
   simp only [bind_ok, validateInt_ok] at h
-  obtain ⟨_, hv, h⟩ := h
+  obtain ⟨_, hv, _, _, h⟩ := h
   refine ⟨hv, ?_⟩
-  split at h
-  · simp only [ite_throw_bind_ok] at h
-    exact lc_mid ct baud r h.2
-  · simp only [ite_throw_bind_ok] at h
-    exact lc_mid ct baud r h.2
+  cases baud with
+  | none => simp only [pure_ok] at h; exact ⟨_, h.symm⟩
+  | some b => simp only [bind_ok, pure_ok] at h; obtain ⟨_, _, _, _, h⟩ := h; exact ⟨_, h.symm⟩
 
 theorem linkControl_sf (ct : Int) (baud : Option Baudrate) (r : Request) (h : linkControlMakeRequest ct baud = .ok r) :
     r.subfunction = some ct.toNat := by
